@@ -127,18 +127,37 @@ def _src_files():
 def keys_read():
     written, read = set(), set()
     where: Dict[str, List[str]] = {}
+    # module-level string constants (NAME = "text" / NAME: Final = "text"): a key written through a named constant is that text
+    consts: Dict[str, str] = {}
+    for f in _src_files():
+        for st in instrument.parse_file(f).body:
+            tgt, val = None, None
+            if isinstance(st, ast.Assign) and len(st.targets) == 1 and isinstance(st.targets[0], ast.Name):
+                tgt, val = st.targets[0].id, st.value
+            elif isinstance(st, ast.AnnAssign) and isinstance(st.target, ast.Name) and st.value is not None:
+                tgt, val = st.target.id, st.value
+            if tgt and isinstance(val, ast.Constant) and isinstance(val.value, str):
+                consts[tgt] = repr(val.value) if tgt not in consts or consts[tgt] == repr(val.value) else "<ambiguous>"
+
+    def keytext(e):
+        if isinstance(e, ast.Name) and consts.get(e.id, "<ambiguous>") != "<ambiguous>":
+            return consts[e.id]
+        if isinstance(e, ast.Attribute) and isinstance(e.value, ast.Name) and e.attr in consts and consts[e.attr] != "<ambiguous>" \
+                and not e.value.id[:1].isupper():
+            return consts[e.attr]          # module.NAME
+        return ast.unparse(e)
     for f in _src_files():
         tree = instrument.parse_file(f)
         for n in ast.walk(tree):
             if isinstance(n, ast.Call) and isinstance(n.func, ast.Attribute) and n.func.attr in ("_set_info", "get_info") and n.args:
-                k = ast.unparse(n.args[0])
+                k = keytext(n.args[0])
                 if n.func.attr == "_set_info":
                     written.add(k)
                 elif k != "key":
                     read.add(k)
                     where.setdefault(k, []).append(os.path.relpath(f, repo_root()))
             if isinstance(n, ast.Subscript) and isinstance(n.value, ast.Attribute) and n.value.attr == "global_info":
-                k = ast.unparse(n.slice)
+                k = keytext(n.slice)
                 if isinstance(n.ctx, ast.Load) and k != "key":
                     read.add(k)
     # allow_matching_substring(key) passes the enum through: its call sites name the keys
@@ -146,7 +165,7 @@ def keys_read():
         tree = instrument.parse_file(f)
         for n in ast.walk(tree):
             if isinstance(n, ast.Call) and isinstance(n.func, ast.Attribute) and n.func.attr == "allow_matching_substring" and n.args:
-                read.add(ast.unparse(n.args[0]))
+                read.add(keytext(n.args[0]))
     missing = sorted(k for k in read if k not in written)
     return [simple_ob("JASMConfig:keys-read-subset-written", JC + ".get_info", "FRAME",
                       f"every key read ({sorted(read)}) is among the keys load_config writes ({sorted(written)})",
@@ -245,6 +264,21 @@ def per_operation():
         obs.append(simple_ob("Yaml2Regex.__init__:POST-default", "jasm.jasm_regex.yaml2regex.Yaml2Regex.__init__", "POST",
                              "a rule without `config` loads the empty config (all keys reset)", calls == [("load_config", {})], PCFG,
                              detail=repr(calls), witness=repr(calls)))
+        # `config:` with nothing below it loads as None: the operation either fails loudly or loads the empty config -- it never
+        # keeps the previous rule's configuration by skipping the load
+        calls.clear()
+        Y.load_file = staticmethod(lambda file: {"pattern": ["x"], "config": None})
+        try:
+            Y("rule.yaml")
+            okn = calls == [("load_config", {})]
+            outcome = repr(calls)
+        except Exception as e:     # noqa
+            okn, outcome = True, f"raises {type(e).__name__}"
+        obs.append(simple_ob("Yaml2Regex.__init__:POST-null-config", "jasm.jasm_regex.yaml2regex.Yaml2Regex.__init__", "POST",
+                             "an empty `config:` entry (None) raises or loads the empty config; it never leaves the singleton as the previous rule set it",
+                             okn, PCFG, detail=outcome, witness=outcome))
+        Y.load_file = staticmethod(lambda file: {"pattern": ["x"]})
+        y = Y("rule.yaml")
         a, b = y.context_initializer(), y.context_initializer()
         okc = a is not b and a.capture_manager is not b.capture_manager and a.capture_manager.capture_group_references == [] \
             and a.capture_manager.capture_group_references is not b.capture_manager.capture_group_references
@@ -383,6 +417,37 @@ def shell():
                                   "oserr": "an OS error is re-raised", "missing": "a missing input file raises"}[which],
                                  ok, ["C17", "C15"], detail=f"{kind} {val!r}", witness=which))
     obs.append(simple_ob("ShellDisassembler.disassemble:COVER", SD, "POST", "all six outcomes explored (vacuity guard)", seen == set(OUT), P15, detail=repr(seen)))
+    # the class actually used for binaries (GNUObjdumpDisassembler): EVERY disassemble() runs the program and returns THAT run's
+    # output -- also for the same path / same flags a second time (the file may have changed in between)
+    calls2: List[Any] = []
+
+    class SP2:
+        CalledProcessError = real_sp.CalledProcessError
+
+        @staticmethod
+        def run(argv, **kw):
+            calls2.append(list(argv))
+            return type("R", (), {"returncode": 0, "stdout": f"listing #{len(calls2)}", "stderr": ""})()
+    mod = J.shell
+    o_sp, o_path, o_log = mod.subprocess, mod.Path, mod.logger
+    mod.subprocess, mod.Path = SP2, type("P", (), {"__init__": lambda self, p: None, "exists": lambda self: True})
+    mod.logger = type("L", (), {"info": staticmethod(lambda *a: None), "error": staticmethod(lambda *a: None)})
+    try:
+        J.gd.JASMConfig.get_instance().load_config({})
+        outs = []
+        for _k in range(3):
+            d = J.gnud.GNUObjdumpDisassembler(enum_disas_style=J.gd.DisassStyle.att)
+            outs.append(d.disassemble("same/path.bin"))
+        outs.append(d.disassemble("same/path.bin"))
+        ok2 = outs == ["listing #1", "listing #2", "listing #3", "listing #4"] and len(calls2) == 4
+        detail = f"outputs={outs} process runs={len(calls2)}"
+    except Exception as e:     # noqa
+        ok2, detail = None, f"unsupported: {type(e).__name__}: {e}"
+    finally:
+        mod.subprocess, mod.Path, mod.logger = o_sp, o_path, o_log
+    obs.append(simple_ob("GNUObjdumpDisassembler.disassemble:FRAME-every-run", SD, "FRAME",
+                         "every disassemble() call runs the disassembler and returns that run's output (no listing kept from an earlier call "
+                         "for the same path and flags)", ok2, ["C15", "C14"], detail=detail, witness=detail))
     return obs
 
 
